@@ -257,8 +257,10 @@ struct DurationTotal {
 
 impl DurationTotal {
     pub fn new(time_duration: i128, unit_nanoseconds: u64) -> Self {
-        let quotient = time_duration.div_euclid(unit_nanoseconds as i128);
-        let remainder = time_duration.rem_euclid(unit_nanoseconds as i128);
+        // NOTE: truncating division keeps the remainder's sign equal to the quotient's, so
+        // that adding the fractional part back never cancels significant digits.
+        let quotient = time_duration / unit_nanoseconds as i128;
+        let remainder = time_duration % unit_nanoseconds as i128;
 
         Self {
             quotient,
